@@ -3,4 +3,5 @@ package harness
 
 import (
 	_ "verif/sim/props/c02"
+	_ "verif/sim/props/c19"
 )
